@@ -507,6 +507,37 @@ func c05observe[V any](im c05impl[V], m *ordered.Map[string, V], model *c05model
 		if b.String() != want || t.Len() != n {
 			return "TransformValues " + b.String() + " want " + want
 		}
+		// the result is a map of its own: editing it (new key, delete, rename onto an existing key) leaves the source as it was
+		pan := report.Catch(func() {
+			t.Set("tv-new", 1)
+			t.Range(func(k string, _ int) error { t.Delete(k); return fmt.Errorf("stop") })
+			t.Replace("tv-new", "a", 2)
+			t.Set("tv-more", 3)
+		})
+		if pan != "" {
+			return "editing the TransformValues result panicked: " + pan
+		}
+		var a strings.Builder
+		a.WriteByte('[')
+		first = true
+		m.Range(func(k string, v V) error {
+			if !first {
+				a.WriteByte(' ')
+			}
+			first = false
+			i, _ := im.un(v)
+			fmt.Fprintf(&a, "%s:%d", k, i)
+			return nil
+		})
+		a.WriteByte(']')
+		if a.String() != want || m.Len() != n {
+			return "editing the TransformValues result changed the source: " + a.String() + " (Len " + fmt.Sprint(m.Len()) + ") want " + want
+		}
+		for _, k := range []string{"tv-new", "tv-more"} {
+			if m.Contains(k) {
+				return "editing the TransformValues result added " + k + " to the source"
+			}
+		}
 		return ""
 	})
 	if sa, ok := any(m).(*ordered.MapSA); ok && m != nil {
